@@ -94,7 +94,13 @@ def units(w):
                 return
             if k1 in num and k2 in num:
                 if o.kind == "raise":
-                    it.check("raises:only-div/mod-by-zero", z3.And(op in ("div", "mod"), zr(b.fields["value"]) == 0))
+                    big = z3.BoolVal(False)
+                    for kk, vv in ((k1, a), (k2, b)):
+                        if kk == "int":
+                            iv = zi(vv.fields["value"])
+                            big = z3.Or(big, iv >= 2 ** 1024, iv <= -(2 ** 1024))
+                    it.check("raises:only-div/mod-by-zero-or-int-beyond-double-range",
+                             z3.Or(z3.And(op in ("div", "mod"), zr(b.fields["value"]) == 0), big))
                     return
                 if c["div0"] is not None and op == "div" and o.value is c["div0"]:
                     it.check("post:DIV_0_VALUE-only-on-zero-divisor", zr(b.fields["value"]) == 0)
@@ -106,8 +112,6 @@ def units(w):
             it.check("post:value-or-language-error", o.kind in ("return", "raise"))
         name = f"functions.py::{clsname}.execute[{k1},{k2}]" + (f"[DIV_0_VALUE {div0}]" if div0 else "")
         loops = None
-        if op == "mul" and k1 == "list0" and k2 == "int":
-            loops = {0: Loop(lambda st: [zi(st.k) >= 0], modifies=["result.value"])}
         return Unit(f"functions.py::{clsname}.execute", setup, post, name=name, loops=loops, replay=replay_arith(op),
                     abstractions=DATE_ABS)
     for op in OPS:
